@@ -973,41 +973,41 @@ T_FLOAT = "float assumption: Go's float64 evaluation of min*1.1^n stays within 2
 
 CHECKS = {
     "C01": dict(
-        props=["C01"],
+        props=["C01", "Tie"],
         parts=[engine_part("delivery", 32, 600, 45, claim_c01, ["deliveries_created", "pull_nonempty", "redelivery", "nack_rescheduled"]),
                stream_part(STREAM_C01)],
         rule="[+ stream part: a message nacked on a stream (Nack list or zero deadline, also through the StreamingPull RPC) must not end up acknowledged] generated histories (profile delivery: publish/pull/ack/modack/nack/seek/jobs/clock jumps) against the production gRPC server; every step is checked "
              "locally: model step from the implementation's pre-state vs response and full five-table post-state; non-trivial = deliveries created, non-empty pulls, redeliveries",
         assumptions=BUS_ASSUME),
     "C02": dict(
-        props=["C02"],
+        props=["C02", "Tie"],
         parts=[engine_part("general", 32, 600, 45, claim_c02, ["pull_nonempty", "publish_ok", "publish_batch"])],
         rule="engine profile general over several topics and subscriptions sharing topics; owned projection: Pull responses (ack id, message id, payload as canonical JSON value, "
              "attributes, ordering key, publish time, attempt) and the messages table; payloads cover whitespace, unicode, HTML-sensitive characters, big/exponent numbers, nesting, non-JSON, empty",
         assumptions=BUS_ASSUME + ["payloads are compared by JSON value (the code stores the compacted, HTML-escaped form)"]),
     "C04": dict(
-        props=["C04", "C04backoff"],
+        props=["C04", "C04backoff", "Tie"],
         parts=[engine_part("delivery", 32, 600, 45, claim_c04, ["redelivery", "modack_effective", "nack_rescheduled", "pull_nonempty"]), part_backoff,
                timers_part(TIMERS_C04), stream_part(STREAM_C04)],
         rule="[+ real-time part: a pull already waiting returns a message when its 330 ms retry deadline passes while another message's deadline was extended to 600 s] engine profile delivery (retry policies absent/min/max/both from 200 ms to 100 s, clock jumps to lease deadline -/+ margin) + grid of NextDelayFor over policies x attempts; "
              "non-trivial = redeliveries, effective deadline changes, nacks",
         assumptions=BUS_ASSUME + [T_FLOAT, "concurrent pullers: interleavings are at transaction granularity (serialisable database), covered by the history theorems; not exhibited on the code here"]),
     "C06": dict(
-        props=["C06"],
+        props=["C06", "Tie"],
         parts=[engine_part("delivery", 32, 600, 45, claim_c06, ["pull_deadlettered", "nack_deadlettered", "job_effective:DeadLetterSweep"]),
                services_part(("DeadLetterSweep",), False)],
         rule="[+ background services part: the dead-letter service's first run = one model sweep step] engine profile delivery with dead-letter policies N in 1..4 and default, topologies from generated topics (no subscriber, several, filtered, ordered, deleted topic, self loop); "
              "non-trivial = deliveries dead-lettered by pull / nack / sweep",
         assumptions=BUS_ASSUME),
     "C05": dict(
-        props=["C05"],
+        props=["C05", "Tie"],
         parts=[engine_part("delivery", 32, 600, 45, claim_c05, ["pull_keyed", "publish_batch"]), part_ordered_publish_faults],
         rule="[+ a Publish of three same-key messages to an ordered subscription behind an outstanding same-key message, with each of its statements failing in turn: the publish fails as a whole or the chain is as the model says; written times of a batch must increase strictly (hypothesis quiet of the theorem)] engine profile delivery: 40% ordered subscriptions, keys k1 k1 k2 k3 and un-keyed messages, single and batched publishes, pulls of size 1..100, acks in any order, nacks, "
              "lease and retention expiry, dead-lettering, seeks, prunes; owned projection: predecessor links written by Publish, Pull selection/response, link nulling by the delivery prunes; "
              "non-trivial = keyed messages pulled, batches",
         assumptions=BUS_ASSUME + ["history theorem under the environment hypotheses of Bus/T_C05.v (quiet, disciplined H1-H6)"]),
     "C09": dict(
-        props=["C09"],
+        props=["C09", "Tie"],
         parts=[part_fault_enum, part_services_fault],
         rule="[+ service part: the prune-deleted-topics service (one long-lived action object) is held before its SECOND run, a topic with a left-over snapshot is aged past the threshold and each of the run's 5 driver calls is failed in turn: tables unchanged, the next run prunes] for each of 26 mutating operations in a prepared non-trivial state, the k-th driver call (BEGIN/exec/query/COMMIT) is failed (error or context-cancellation error), "
              "every k in both tiers (215 positions); checks: error reported, five-table dump identical, no publish waiter woken, retry succeeds and matches the model; "
@@ -1025,7 +1025,7 @@ CHECKS = {
         trusted=["Go channels, the mutex of notify.go, the goroutine scheduler and timers are modelled (atomic sections), not verified"],
         assumptions=["partial: interleavings inside atomic sections and the PostgreSQL LISTEN/NOTIFY relay are not exhibited; 'promptly' is a 2 s bound with all timers >= 10 s"]),
     "C14": dict(
-        props=["C14"],
+        props=["C14", "Tie"],
         parts=[engine_part("delivery", 32, 600, 45, claim_c14, ["job_effective:ExpireSubs", "job_effective:PruneExpiredDeliveries", "pull_empty", "pull_nonempty"]),
                services_part(("ExpireSubs", "PruneExpiredDeliveries"), False), timers_part(TIMERS_C14)],
         rule="[+ background services part: the expiry service on a prepared state (a subscription 23 min from expiring must survive); real-time part: a pull waiting across the end of a message's retention must not hand it out, delivery delay honoured by a waiting pull] engine profile delivery: retention 20 s .. 1 h and default, ttl 45 s .. 24 h and default, injected delays 0/5/40 s; the clock jumps to each lease / retention / subscription "
@@ -1033,7 +1033,7 @@ CHECKS = {
              "publish (deadlines of new deliveries), SetDelay, expired-delivery prune",
         assumptions=BUS_ASSUME),
     "C17": dict(
-        props=["C17", "C17codec"],
+        props=["C17", "C17codec", "Tie"],
         parts=[engine_part("config", 32, 600, 45, claim_c17, ["publish_ok", "pull_nonempty"]), part_codec],
         rule="engine profile config: create/get/update/list of subscriptions and topics with generated configurations (durations absent/0/negative/45 s..24 h, retry bounds incl. 0 and negative, "
              "dead-letter policies, push configs, labels, filters, every mask path incl. unknown/unsupported/repeated, in sequence) + duration codec: Interval.Value/Scan vs model on boundary and random "
@@ -1041,7 +1041,7 @@ CHECKS = {
         assumptions=BUS_ASSUME + ["Go-format strings with more fraction digits than Duration.String() produces are outside the exact-float class and not generated",
                                   "PostgreSQL itself is not exercised (no PostgreSQL offline); the PostgreSQL interval parser's sign/overflow behaviour is stated as refuted lemmas (F12), unreachable on SQLite"]),
     "C16": dict(
-        props=["C16"],
+        props=["C16", "Tie"],
         parts=[part_c16, engine_part("general", 32, 600, 45, claim_c16, ["publish_ok"])],
         rule="boundary-domain requests (names valid/wrong kind/empty/unknown/deleted, int32 min,-1,0,1,1000,max, durations absent/negative/zero/huge/invalid, nested messages absent/empty, "
              "ack ids live/stale/foreign/garbage/unknown/mixed/duplicate, masks known/unknown/repeated/empty, payloads JSON/non-JSON/empty) on every implemented RPC against a child-process server; "
@@ -1049,7 +1049,7 @@ CHECKS = {
         trusted=["panics originating in libraries for inputs outside the enumerated domains are not covered"],
         assumptions=["partial: the handler model covers the validation logic; the enumeration is pairwise, not the full cross product"]),
     "C15": dict(
-        props=["C15"],
+        props=["C15", "Tie"],
         parts=[part_c15_meta, services_part(PRUNE_JOBS, False), timers_part(TIMERS_C15), engine_part("prune", 32, 600, 45, claim_c15,
                                           ["job_effective:PruneCompletedDeliveries", "job_effective:PruneExpiredDeliveries", "job_effective:PruneCompletedMessages",
                                            "job_effective:PruneDeletedSubDeliveries", "job_effective:PruneDeletedSubs", "job_effective:PruneDeletedTopics"])],
@@ -1091,7 +1091,7 @@ CHECKS = {
         assumptions=["partial: the real-time split fast/slow (< 1 s) is driven with clear margins (0-60 ms vs 1.1 s); status 102 (and every 1xx) cannot be observed as a final status by Go's HTTP client and is not exercised",
                      "concurrency of the streamer and the Go scheduler are exercised, not exhausted (the bound is proved on the window model and checked on the runs)"]),
     "C03": dict(
-        props=["C03"],
+        props=["C03", "Tie"],
         parts=[engine_part("delivery", 32, 600, 45, claim_c03, ["ack_effective", "ack_noop", "modack_effective", "nack_rescheduled"]),
                stream_part(STREAM_C03),
                engine_part(("bulk520", "bulk1100"), 1, 1, 30, claim_c03, ["ack_effective"])],
@@ -1100,13 +1100,13 @@ CHECKS = {
              "non-trivial = acks that completed something, no-op acks, effective deadline changes, nacks",
         assumptions=BUS_ASSUME),
     "C12": dict(
-        props=["C12"],
+        props=["C12", "Tie"],
         parts=[engine_part("names", 32, 600, 45, claim_c12, ["snapshot_created", "publish_ok"]),
                engine_part("many", 1, 1, 360, claim_c12, ["snapshot_created"])],
         rule="[+ profile many: 103 topics, 102 subscriptions of one topic, 103 snapshots (more than the 100-row page cap), every List walked with page sizes 101, 1000, 100, 60 following the tokens] engine profile names: create/delete/re-create/get/list of topics, subscriptions, snapshots in projects p, P, p%, p_, pp, p/x with page sizes 0,1,2,3,100,-1,1000 and followed page tokens",
         assumptions=BUS_ASSUME + ["concurrent creates of one name are serialised by the database (C12 race half is the unique index + serialisable transactions: assumed)"]),
     "C13": dict(
-        props=["C13"],
+        props=["C13", "Tie"],
         parts=[engine_part("seek", 32, 600, 45, claim_c13, ["seek_effective", "snapshot_created"]),
                engine_part(("bulk1100", "bulk1100"), 1, 1, 40, claim_c13, ["seek_effective", "snapshot_created"])],
         parallel=True,
@@ -1122,14 +1122,14 @@ CHECKS = {
         trusted=["Go memory model, sync/atomic and sync.RWMutex (each atomic Load/Add is one LTS step)", "the verif yield hook in faults.Set.Check (one added line)"],
         assumptions=["interleavings inside an atomic operation are not exhibited on the code; prune() is invisible (skips only exhausted entries)"]),
     "C07": dict(
-        props=["C07"],
+        props=["C07", "Tie"],
         parts=[part_filter_c07, engine_part("general", 32, 600, 45, claim_c07, ["publish_ok", "deliveries_created"])],
         rule="grammar-generated, mutated, fuzzed and bounded-exhaustive filters x attribute maps: Go ParseString+Evaluate vs model parse+eval and vs the documented semantics; "
              "routing: engine profile general (30% filtered subscriptions, filter updates and re-creation under the same name via a scenario template), owned projection: which subscriptions "
              "get a delivery at Publish / dead-letter forward; non-trivial = the filter parsed, deliveries created",
         assumptions=["Unicode letter/digit classification only for the code points of Filter/Tables.v", "documented reading of != : NOT (=)"]),
     "C08": dict(
-        props=["C08"],
+        props=["C08", "Tie"],
         parts=[part_filter_c08, engine_part("config", 32, 600, 45, claim_c08e, ["publish_ok"])],
         rule="[+ engine profile config: CreateSubscription / UpdateSubscription(filter) with invalid filters (repeated within one server process) are rejected and never stored] same inputs as C07: accept/reject + AST equality with the model, AsFilter text equality, and re-parse to the same AST; watchdog for hangs, recover for panics",
         assumptions=["text/scanner and strconv are modelled (Lex.v, Print.v), tied by this differential test", "never-crash/never-hang of the Go parser is checked on the generated inputs, not proved"]),
